@@ -242,14 +242,11 @@ pub enum Tok {
 /// [MS-XLSB] 2.5.97.16 Ptg table (the same numbering as [MS-XLS] 2.5.198.25), binary operators 0x03 - 0x11:
 /// PtgAdd 03, PtgSub 04, PtgMul 05, PtgDiv 06, PtgPower 07, PtgConcat 08, PtgLt 09, PtgLe 0A, PtgEq 0B, PtgGe 0C, PtgGt 0D, PtgNe 0E,
 /// PtgIsect 0F (space), PtgUnion 10 (comma), PtgRange 11 (colon)
-pub open spec fn binop_str(p: int) -> &'static str {
-    if p == 0x03 { "+" } else if p == 0x04 { "-" } else if p == 0x05 { "*" } else if p == 0x06 { "/" } else if p == 0x07 { "^" }
-    else if p == 0x08 { "&" } else if p == 0x09 { "<" } else if p == 0x0A { "<=" } else if p == 0x0B { "=" } else if p == 0x0C { ">=" }
-    else if p == 0x0D { ">" } else if p == 0x0E { "<>" } else if p == 0x0F { " " } else if p == 0x10 { "," } else { ":" }
+pub open spec fn binop(p: int) -> Seq<char> {
+    if p == 0x03 { "+"@ } else if p == 0x04 { "-"@ } else if p == 0x05 { "*"@ } else if p == 0x06 { "/"@ } else if p == 0x07 { "^"@ }
+    else if p == 0x08 { "&"@ } else if p == 0x09 { "<"@ } else if p == 0x0A { "<="@ } else if p == 0x0B { "="@ } else if p == 0x0C { ">="@ }
+    else if p == 0x0D { ">"@ } else if p == 0x0E { "<>"@ } else if p == 0x0F { " "@ } else if p == 0x10 { ","@ } else { ":"@ }
 }
-pub open spec fn binop(p: int) -> Seq<char> { binop_str(p)@ }
-/// the operator the code selected is the operator of the token (plain equality of the two literal texts: no extensional reasoning needed)
-pub open spec fn xlsb_binary_operator_is(op: Seq<char>, want: Seq<char>) -> bool { op == want }
 /// [MS-XLSB] 2.5.97.2 BErr
 pub open spec fn err_text(e: int) -> Option<Seq<char>> {
     if e == 0x00 { Some("#NULL!"@) } else if e == 0x07 { Some("#DIV/0!"@) } else if e == 0x0F { Some("#VALUE!"@) } else if e == 0x17 { Some("#REF!"@) }
@@ -838,7 +835,7 @@ verus! {
                     }
 //@@ before /formula\.push_str\(op\);/
                 //# C14.xlsb_binary_operator_text
-                assert(xlsb_binary_operator_is(op@, binop(ptg as int)));
+                assert(xlsb_binary_operator_text(true, op@, binop(ptg as int)));
 //@@ before /\}\n {12}0x3b \| 0x5b \| 0x7b => \{/
                 proof {
                     assert(stack@ =~= st_in.push(blen(f_in) as usize));
